@@ -10,4 +10,4 @@ for p in $PROPS; do
   out=$(/verif/bin/cdlint -prop $p -repo /repo -evidence "" 2>&1)
   echo "$out" | grep -q "^VIOLATION" && { echo "  $p: CAUGHT"; echo "$out" | grep -A1 "^VIOLATION" | grep "^  C" | head -3 | cut -c1-260; } 
 done
-git -C /repo checkout -- .
+git -C /repo checkout -- . && git -C /repo clean -fdq
